@@ -7,6 +7,7 @@ import Driver.Map
 import Driver.Handshake
 import Driver.Conn
 import Driver.Deque
+import Driver.Faults
 
 open Drv
 
@@ -24,6 +25,7 @@ def dispatch (line : String) : Res :=
   | "hs-client" :: args => runHsClient args
   | "conn" :: args => runConn args
   | "deque" :: args => runDeque args
+  | "faults" :: args => runFaults args
   | _ => bad "unknown-suite"
 
 partial def loop (hin hout : IO.FS.Stream) : IO Unit := do
